@@ -245,7 +245,8 @@ def bfs(report: Report, group: str, model: Model, depth: int, chunk=8, workers=N
         c = digest(model.canon())
         if c not in seen:
             seen.add(c)
-            frontier.append((r, [], model.snapshot()))
+            if not model.prune(('root', r), ('ok',)):      # a root that is already judged broken is reported, not expanded
+                frontier.append((r, [], model.snapshot()))
     transitions = 0
     outs = Counter()
     depth_completed = 0
